@@ -15,6 +15,9 @@ CONSTANT Focus
 GLens == 1..24
 GLensBig == {63, 64, 65, 511, 512}
 GSlacks == {0, 1, 2}
+\* lengths around the machine-word sizes (all-set test over whole words / bytes / a tail): every single clear position
+GLensWord == {64, 65, 127, 128, 129, 136, 200, 264}
+GLensWordT == {64, 65, 127, 128, 129, 136, 200, 264, 512, 520}
 
 Depth == IF "VERIF_DEPTH" \in DOMAIN IOEnv THEN atoi(IOEnv.VERIF_DEPTH) ELSE 4
 
